@@ -8,7 +8,7 @@ open OPM OPM.Wire OPM.SaveConc
                                      the real handler (lock across the round trip? version reset on re-registration? extra check in front of the lock?)
           `initm <v0> <locked> <reset> <precheck>` → same with the lock bit flipped (mutant for the self-test)
           `disconnect` | `register` → the engine's connection drops / the engine registers again
-          `start <id> <base>`      → a save request enters
+          `start <id> <base> <content>` → a save request enters (content: small number; equal = identical lines)
           `reply <id> <ok 0/1>`    → the engine's answer to the pending round trip of save <id> arrives
     answer: the canonical state, or `bad-op` (ill-formed line / event not enabled). -/
 structure St where
@@ -29,6 +29,7 @@ def semi (l : List String) : String := if l.isEmpty then "-" else ";".intercalat
 def render (s : State) : String :=
   "v=" ++ (if s.registered then toString s.version else "-") ++
   " owner=" ++ (match s.owner with | some i => toString i | none => "-") ++
+  " c=" ++ (match s.content with | some c => toString c | none => "-") ++
   " await=" ++ showIds s.awaiting ++
   " wait=" ++ showIds s.waiters ++
   " acc=" ++ semi (s.accepted.map (fun r => toString r.id ++ ":" ++ toString r.base)) ++
@@ -53,13 +54,13 @@ def step (st : St) (line : String) : St × String :=
     match OPM.SaveConc.step st.cfg st.s .register with
     | some s' => ({ st with s := s' }, render s')
     | none => (st, "bad-op")
-  | ["start", i, b] =>
-    match i.toNat?, b.toNat? with
-    | some i, some b =>
-      match OPM.SaveConc.step st.cfg st.s (.start i b) with
+  | ["start", i, b, c] =>
+    match i.toNat?, b.toNat?, c.toNat? with
+    | some i, some b, some c =>
+      match OPM.SaveConc.step st.cfg st.s (.start i b c) with
       | some s' => ({ st with s := s' }, render s')
       | none => (st, "bad-op")
-    | _, _ => (st, "bad-op")
+    | _, _, _ => (st, "bad-op")
   | ["reply", i, ok] =>
     match i.toNat?, parseBool ok with
     | some i, some ok =>
